@@ -35,6 +35,8 @@ package runaijob
 //@ declare lastIndexOf(s string, sep string) int
 //@ func strings.LastIndex
 //@   props C18
+//@   trusted
+//@   note library function (no body in the loaded program): a deterministic function of its two arguments, -1 or a valid position
 //@   pure
 //@   ensures result == lastIndexOf(s, substr)
 //@   ensures result >= -1 && result + len(substr) <= len(s)
